@@ -118,6 +118,11 @@ def ev(d: Any, env: dict[str, Any]) -> Any:
     if op == "pow2":
         a = ev(d[1], env)
         return a * a
+    if op == "sqrtS":
+        a = ev(d[1], env)
+        if a < 0:
+            raise Discard("root of a negative number at the assignment")
+        return MP.sqrt(a)
     if op == "div":
         b = ev(d[2], env)
         if abs(b) <= TOL:
@@ -264,7 +269,8 @@ def _flat(draw: Any, lo: int, hi: int) -> Any:
 @st.composite
 def _coef(draw: Any, lo: int, hi: int, vectors: bool = True) -> Any:
     """A scalar coefficient; atoms used inside dot/norm/mixed come from pool[lo:hi]."""
-    kinds = ["num", "num", "sym", "sym", "numsym", "symsym", "sum", "sumsym", "quot", "quot2", "quotsum", "square", "sqsum"]
+    kinds = ["num", "num", "sym", "sym", "numsym", "symsym", "sum", "sumsym", "quot", "quot2", "quotsum", "square", "sqsum",
+        "rootprod"]
     if vectors and hi - lo >= 1:
         kinds += ["dot", "dot", "norm", "norm", "dotsym", "normquot", "dotflat"]
         if hi - lo >= 3:
@@ -289,6 +295,10 @@ def _coef(draw: Any, lo: int, hi: int, vectors: bool = True) -> Any:
         return ["div", draw(s), ["addS", draw(s), draw(n)]]
     if kind == "quotsum":
         return ["div", ["addS", draw(s), draw(n)], draw(s)]
+    if kind == "rootprod":
+        # a root of a product / quotient / square of real symbols: sqrt(x*y) is NOT sqrt(x)*sqrt(y) for negative values
+        inner = draw(st.sampled_from(("mul", "mul", "div", "pow2")))
+        return ["sqrtS", ["pow2", draw(s)] if inner == "pow2" else [inner, draw(s), draw(s)]]
     if kind == "square":
         return ["pow2", draw(s)]
     if kind == "sqsum":
@@ -503,6 +513,8 @@ class Built:
             return b(d[1]) / b(d[2])
         if op == "pow2":
             return b(d[1])**2
+        if op == "sqrtS":
+            return sympy.sqrt(b(d[1]))
         if op == "cross":
             return VectorCross(b(d[1]), b(d[2]))
         if op == "dot":
@@ -1046,7 +1058,10 @@ def _shard(task: dict[str, Any]) -> Recorder:
 
     def body(case: dict[str, Any]) -> None:
         res = judge(case)
-        nt, labels = classify(case)
+        try:
+            nt, labels = classify(case)
+        except Discard:
+            nt, labels = False, [f"kind={case['kind']}", "classify:discard"]
         sub = ""
         if case["kind"] == "scalar":
             ops = ops_of(case["lhs"], set()) | (ops_of(case["rhs"], set()) if case["rhs"] else set())
